@@ -31,13 +31,135 @@ def strip(e):
             return e
 
 
-class Model:
-    """symbols: list of (name, matcher) where matcher(expr) -> bool decides that an expression *is* that symbol."""
+def subst(e, args):
+    """Replace ("param", i, name) by args[i-1] throughout an expression tree."""
+    if not isinstance(e, tuple):
+        return e
+    if len(e) == 3 and e[0] == "param" and isinstance(e[1], int):
+        return args[e[1] - 1] if 0 < e[1] <= len(args) else e
+    return tuple(subst(x, args) for x in e)
 
-    def __init__(self, symbols):
+
+def return_shape(prog, path):
+    """How a local function computes its result: ("expr", e) | ("cases", subject, {variant: e}) | None.
+
+    "cases": the function is a `match self.<path-constant enum field>` whose arms each assign the result once."""
+    from . import patterns as pt, cfg
+    fn = prog.fns.get(path)
+    if fn is None:
+        return None
+    cached = fn._cache.get("return_shape", 0)
+    if cached != 0:
+        return cached
+
+    def def_expr(dd):
+        return df.rvalue_expr(fn, dd[3]["rv"]) if dd[0] == "stmt" else df.call_expr(fn, dd[2])
+    res = None
+    d0 = [dd for dd in df.defs_of(fn).all(0) if dd[0] in ("stmt", "call") and not fn.blocks[dd[1]]["cleanup"]]
+    if len(d0) == 1 and len(df.defs_of(fn).all(0)) == 1:
+        e = def_expr(d0[0])
+        if isinstance(e, tuple) and e and e[0] == "local":
+            dl = [dd for dd in df.defs_of(fn).all(e[1]) if dd[0] in ("stmt", "call")]
+            sws = pt.discr_switches(fn, lambda ex, rv: isinstance(ex, tuple) and ex[0] == "field" and isinstance(ex[1], tuple) and ex[1][0] == "param")
+            if len(sws) == 1 and len(dl) == len(df.defs_of(fn).all(e[1])) and dl:
+                sw = sws[0]
+                cases = {}
+                okc = True
+                for var, edge in sw["edges"].items():
+                    reg = cfg.dominated_by_edge(fn, edge)
+                    here = [dd for dd in dl if dd[1] in reg]
+                    if len(here) != 1:
+                        okc = False
+                        break
+                    cases[var] = def_expr(here[0])
+                if okc and len(cases) == len(dl):
+                    res = ("cases", sw["expr"], cases)
+        else:
+            res = ("expr", e)
+    fn._cache["return_shape"] = res
+    return res
+
+
+class Model:
+    """symbols: list of (name, matcher) where matcher(expr) -> bool decides that an expression *is* that integer symbol.
+    seqsyms: the same for sequence-valued expressions (the symbol stands for the sequence's length).
+    enumsyms: [(name, matcher)] for path-constant enum values; env[name] is the variant name.
+    prog: when given, calls of local functions with a single return expression (or a match on an enum symbol) are inlined."""
+
+    def __init__(self, symbols, prog=None, seqsyms=(), enumsyms=()):
         self.symbols = symbols
+        self.seqsyms = list(seqsyms)
+        self.enumsyms = list(enumsyms)
+        self.prog = prog
         self.max_const = 0
         self.used = set()
+
+    def norm(self, e, env, depth=0):
+        """Inline local calls bottom-up (choosing match arms by the enum symbols of env)."""
+        if not isinstance(e, tuple) or not e or self.prog is None or depth > 10:
+            return e
+        if self.sym(e) is not None or self.seqsym(e) is not None:
+            return e
+        e = tuple(self.norm(x, env, depth) if isinstance(x, tuple) else x for x in e)
+        if isinstance(e[0], str) and e[0] == "call" and e[1] in self.prog.fns:
+            if self.sym(e) is not None or self.seqsym(e) is not None:
+                return e
+            shape = return_shape(self.prog, e[1])
+            if shape is None:
+                return e
+            if shape[0] == "expr":
+                return self.norm(subst(shape[1], e[2]), env, depth + 1)
+            subj = self.norm(subst(shape[1], e[2]), env, depth + 1)
+            for name, m in self.enumsyms:
+                if m(subj) and env.get(name) in shape[2]:
+                    self.used.add(name)
+                    return self.norm(subst(shape[2][env[name]], e[2]), env, depth + 1)
+        return e
+
+    def prepared(self, e, env):
+        key = (e, tuple(env.get(n) for n, _ in self.enumsyms))
+        c = self.__dict__.setdefault("_ncache", {})
+        if key not in c:
+            c[key] = self.norm(e, env)
+        return c[key]
+
+    def V(self, e, env):
+        return self.val(self.prepared(e, env), env)
+
+    def S(self, e, env):
+        return self.seq(self.prepared(e, env), env)
+
+    def B(self, e, env):
+        return self.boolval(self.prepared(e, env), env)
+
+    def L(self, e, env):
+        return self.seqlen(self.prepared(e, env), env)
+
+    def seqsym(self, e):
+        for name, m in self.seqsyms:
+            if m(e):
+                self.used.add(name)
+                return name
+        return None
+
+    def seqlen(self, e, env):
+        """Length of a sequence-valued expression."""
+        e = strip(e)
+        s = self.seqsym(e)
+        if s is not None:
+            return env[s]
+        if isinstance(e, tuple) and e and e[0] == "call" and e[1].endswith(("Index<I>>::index", "Index<I> for [T]>::index")) and len(e[2]) == 2:
+            base, rg = e[2]
+            if isinstance(rg, tuple) and rg[0] == "agg":
+                if rg[1].endswith("ops::range::Range") and len(rg[3]) == 2:
+                    return self.val(rg[3][1], env) - self.val(rg[3][0], env)
+                if rg[1].endswith("ops::range::RangeFrom") and len(rg[3]) == 1:
+                    return self.seqlen(base, env) - self.val(rg[3][0], env)
+                if rg[1].endswith("ops::range::RangeTo") and len(rg[3]) == 1:
+                    return self.val(rg[3][0], env)
+                if rg[1].endswith("ops::range::RangeFull"):
+                    return self.seqlen(base, env)
+        raise Unsupported("length of %s" % df.show(e, 100))
 
     def sym(self, e):
         for name, m in self.symbols:
@@ -73,6 +195,8 @@ class Model:
                 return max(self.val(e[2][0], env), self.val(e[2][1], env))
             if name.endswith(">::saturating_sub") and len(e[2]) == 2:
                 return max(0, self.val(e[2][0], env) - self.val(e[2][1], env))
+            if name.endswith("::len") and len(e[2]) == 1 and (self.seqsyms or self.prog is not None):
+                return self.seqlen(e[2][0], env)
         raise Unsupported("integer term %s" % df.show(e, 100))
 
     def boolval(self, e, env):
